@@ -424,6 +424,40 @@ fn run_seq(ctx: &Ctx, rep: &mut Report, n: u64, seq: &[Call]) {
                 return;
             }
         };
+        // every entry point renders the same statement: the statically dispatched `to_string` / `build` against
+        // the `dyn` ones
+        {
+            let r = guard(|| {
+                let mut out: Vec<(&'static str, String, String)> = vec![];
+                let any = |d: Dialect| {
+                    let (p, v) = stmt.build_any(qb(d));
+                    format!("{p} {v:?}")
+                };
+                let (p, v) = stmt.build(sea_query::MysqlQueryBuilder);
+                out.push(("mysql build", format!("{p} {v:?}"), any(Dialect::Mysql)));
+                let (p, v) = stmt.build(sea_query::PostgresQueryBuilder);
+                out.push(("postgres build", format!("{p} {v:?}"), any(Dialect::Postgres)));
+                let (p, v) = stmt.build(sea_query::SqliteQueryBuilder);
+                out.push(("sqlite build", format!("{p} {v:?}"), any(Dialect::Sqlite)));
+                out.push(("mysql to_string", stmt.to_string(sea_query::MysqlQueryBuilder), after_sql[Dialect::ALL.iter().position(|x| *x == Dialect::Mysql).unwrap()].clone()));
+                out.push(("postgres to_string", stmt.to_string(sea_query::PostgresQueryBuilder), after_sql[Dialect::ALL.iter().position(|x| *x == Dialect::Postgres).unwrap()].clone()));
+                out.push(("sqlite to_string", stmt.to_string(sea_query::SqliteQueryBuilder), after_sql[Dialect::ALL.iter().position(|x| *x == Dialect::Sqlite).unwrap()].clone()));
+                out
+            });
+            match r {
+                Ok(pairs) => {
+                    rep.count("entry_point_pairs_compared", pairs.len() as u64);
+                    if let Some((which, a, b)) = pairs.into_iter().find(|(_, a, b)| a != b) {
+                        rep.violation("R.entry", "-", format!("{which} differs from the dyn entry point after {call:?}"), json!({"history": hist(), "step": step, "static": a, "dyn": b}), ctx.shard, n);
+                        return;
+                    }
+                }
+                Err(p) => {
+                    rep.violation("R.panic", "-", vcore::run::panic_sig(&p), json!({"history": hist(), "step": step, "panic": p}), ctx.shard, n);
+                    return;
+                }
+            }
+        }
         if failed && (stmt != before || after_sql != before_sql) {
             rep.violation(
                 "R.unchanged-after-error",
